@@ -135,6 +135,21 @@ impl SubCheck for Gates {
 				obs.nontrivial();
 				obs.check(r.status == 405, "c19/non-post-not-405", desc);
 				obs.check(log.is_empty(), "c19/handler-ran-for-non-post", || format!("{} log={log:?}", desc()));
+				// the same request to a path that a `ProxyGetRequestLayer` in front maps to a method: that layer turns GET
+				// requests into calls (what it is for); every other non-POST method is still refused and runs nothing
+				if case.method != "GET" {
+					let l0 = fix.ctx.log_len();
+					let mut q = mk(&cts);
+					q.uri = "/health".into();
+					let rp = fix.http_via_proxy(q).await;
+					settle().await;
+					let ran = fix.ctx.log_since(l0);
+					if rp.status != 0 {
+						obs.class("non-post-to-proxied-path");
+						obs.check(rp.status == 405, "c19/non-post-not-405-behind-proxy-get-layer", || format!("{} /health behind ProxyGetRequestLayer => {}", case.method, rp.status));
+						obs.check(ran.is_empty(), "c19/handler-ran-for-non-post-behind-proxy-get-layer", || format!("{} /health behind ProxyGetRequestLayer => {} log={ran:?}", case.method, rp.status));
+					}
+				}
 				return;
 			}
 			// POST: with several content-type headers the outcome must be that of one of the values alone
